@@ -145,11 +145,13 @@ impl Runner<'_> {
                 ev[k] = v.clone();
             }
         }
-        self.w.emit(self.out, ev);
+        self.w.emit(self.out, ev.clone());
+        crate::util::watch::arm(std::env::var("VH_CMD_TIMEOUT").ok().and_then(|v| v.parse().ok()).unwrap_or(240), &ev.to_string());
         proc_
     }
 
     fn end<T>(&mut self, proc_: u32, res: &Outcome<T>) {
+        crate::util::watch::disarm();
         self.w.flush_ops(self.out, self.probe_ops);
         let refused = res.msg().to_lowercase().contains("append-only");
         self.w.emit(self.out, json!({"e":"end","proc":proc_,"res":res.class(),"msg":res.msg(),"ao_refused":refused}));
@@ -571,6 +573,7 @@ pub fn run(a: &Args) {
     scn::silence_panics();
     let progs = std::fs::read_to_string(a.str("programs", "programs.ndjson")).unwrap();
     let mut out = Out::create(&a.str("out", "trace.ndjson"));
+    crate::util::watch::start(format!("{}.hang", a.str("out", "trace.ndjson")));
     let mut n = 0;
     for line in progs.lines().filter(|l| !l.trim().is_empty()) {
         let prog: Value = serde_json::from_str(line).unwrap();
